@@ -167,4 +167,49 @@ theorem split_restore_rngs (seeds : List (String × SymKey)) (hnd : (seeds.map (
         | some k => simp
       | false => simp
 
+/-- **`only=`: selected streams resume one draw later, unselected streams are never touched.**  Split `Rngs(**seeds)` (counts `c`)
+with any filter and shape.  (a) The split leaves every unselected stream exactly as it was.  (b) Whatever happens inside the
+window — `streams'` is *any* later state of the streams, e.g. after unselected streams were drawn from — `restore_rngs` of that
+split leaves every unselected stream exactly as it is at that moment (its draws inside the window are not rewound), and gives
+every selected stream its original key and the count `c + 1`. -/
+theorem split_restore_only (seeds : List (String × SymKey)) (hnd : (seeds.map (·.1)).Nodup) (c : String → Nat)
+    (only : Option (List String)) (shape : List Nat) (bk : List (List Backup)) :
+    ∃ r1, Rngs.split { streams := streamsOf seeds c, backups := bk } only shape false = .ok (bk.length, r1) ∧
+      (∀ n, selected only n = false → find? n r1.streams = find? n (streamsOf seeds c)) ∧
+      ∀ (streams' : List (String × Stream)) (bk' : List (List Backup)),
+        ∃ r2, Rngs.restore { streams := streams', backups := r1.backups ++ bk' } bk.length = .ok r2 ∧
+          (∀ n, selected only n = false → find? n r2.streams = find? n streams') ∧
+          (∀ n k s, selected only n = true → find? n seeds = some k → find? n streams' = some s →
+            find? n r2.streams = some { s with key := .scalar k, count := .scalar (c n + 1) }) := by
+  refine ⟨{ streams := splitStreams only shape seeds c, backups := bk ++ [backupsOf only seeds c] }, ?_, ?_, ?_⟩
+  · simp only [Rngs.split, splitLoop_streamsOf, bind, Except.bind]
+  · intro n hs
+    simp only []
+    rw [find?_splitStreams]
+    have : find? n (streamsOf seeds c) =
+        (find? n seeds).map (fun k => ({ tag := n, key := .scalar k, count := .scalar (c n) } : Stream)) := by
+      unfold streamsOf
+      induction seeds with
+      | nil => rfl
+      | cons a l ih =>
+        obtain ⟨n', k'⟩ := a
+        simp only [List.map_cons, List.nodup_cons] at hnd
+        by_cases h : n' = n
+        · subst h; simp [find?_cons]
+        · simp [find?_cons, h, ih hnd.2]
+    rw [this]
+    simp [hs]
+  · intro streams' bk'
+    refine ⟨{ streams := restoreLoop streams' (backupsOf only seeds c),
+              backups := (bk ++ [backupsOf only seeds c]) ++ bk' }, ?_, ?_, ?_⟩
+    · simp [Rngs.restore]
+    · intro n hs
+      simp only []
+      rw [restoreLoop_find _ (backupsOf_nodup only c seeds hnd), find?_backupsOf]
+      simp [hs]
+    · intro n k s hs hk hf
+      simp only []
+      rw [restoreLoop_find _ (backupsOf_nodup only c seeds hnd), find?_backupsOf]
+      simp [hs, hk, hf]
+
 end Flax.Rng
